@@ -43,6 +43,8 @@ func runC02(w *World, r *Report) {
 	}
 	r.Rule("C02.skip-survives", "the skip flag of a DAG channel is part of what a checkpoint keeps (exported field): a skipped node stays skipped after a resume", 1)
 	r.Check(fSkipped.Exported(), "C02.skip-survives", "dagChannel."+fSkipped.Name()+" is exported", fSkipped.Pos(), "persisted by the byte store", "the skip flag is an unexported field: the serializer drops it, so after an interrupt + resume the channels that were marked skipped are ready again — branch-skipped nodes and their successors execute with zero input")
+	r.Rule("C02.triggered-tasks-kept", "a node whose channel reported ready (its task was computed, its inputs taken out of the channel) is started or handed to the interrupt handler — never dropped: a triggered node executes (shared with C03 / C05)", 2)
+	computedTasksKept(w, r, "C02.triggered-tasks-kept")
 	r.Rule("C02.ready-poll-all", "every channel is asked for readiness in every round (a DAG channel also becomes ready through a skip report, without being written to) — shared with C03", 1)
 	pollAllCheck(w, r, "C02.ready-poll-all")
 	fCP := w.Field("compose", "dagChannel", "ControlPredecessors")
